@@ -13,6 +13,9 @@ CONSTANTS
   Ops = {"CtxRegister", "CtxDeregister", "Dispatch", "CtxQuit", "ModRegister", "ModDeregister", "ModStart", "ModPause", "ModResume", "ModStop", "DropRef", "Tell"}
   CbOps = {"ModStart", "ModPause", "ModStop", "ModDeregister", "CtxQuit"}
   EvalVals = {TRUE, FALSE}
+  Senders = {"A", "B"}
+  QuitCodes = {0, 1}
+  Setup = ""
 INIT Init
 NEXT Next
 CHECK_DEADLOCK FALSE
